@@ -383,6 +383,45 @@ def full_calls(ctx, res, rng):
     res.distribution['full_grader_calls'] = n_cases
 
 
+def out_of_domain_schedules(ctx, res):
+    """Parameters outside the documented domain: the constructor may refuse them; if it accepts them the
+    schedule it hands out must still satisfy the property (first attempt 1, values in [0,1], non-increasing)."""
+    from mitxgraders import LinearCredit, GeometricCredit
+    tries = []
+    for m in (1.5, 2.0, 1.0001, -0.1, -1.0, 7):
+        tries.append(('LinearCredit', LinearCredit, {'minimum_credit': m}))
+        tries.append(('LinearCredit', LinearCredit, {'minimum_credit': m, 'decrease_credit_after': 2, 'decrease_credit_steps': 1}))
+    for k in (0, -1, 1.5):
+        tries.append(('LinearCredit', LinearCredit, {'decrease_credit_after': k}))
+        tries.append(('LinearCredit', LinearCredit, {'decrease_credit_steps': k}))
+    for f in (1.5, 2.0, 1.0001, -0.5, -1.0, 3):
+        tries.append(('GeometricCredit', GeometricCredit, {'factor': f}))
+    refused = 0
+    for name, cls, kw in tries:
+        st, sched = core.guarded(lambda: cls(**kw))
+        res.oracle_evals += 1
+        if st != 'ret':
+            refused += 1
+            continue
+        vals = []
+        for n in range(1, 25):
+            st2, v = core.guarded(sched, n)
+            vals.append(v if st2 == 'ret' else None)
+        bad = None
+        if vals[0] != 1:
+            bad = 'first attempt gives %r' % (vals[0],)
+        elif any(v is None or not (0 <= v <= 1) for v in vals):
+            bad = 'a credit outside [0,1] (or an exception): %r' % ([v for v in vals if v is None or not (0 <= v <= 1)][:3],)
+        elif any(b > a for a, b in zip(vals, vals[1:])):
+            bad = 'credit increases with the attempt number: %r' % (vals[:6],)
+        if bad:
+            res.witnesses.append({'key': 'accepted-out-of-domain:%s%r' % (name, sorted(kw.items())), 'kind': 'accepted-out-of-domain',
+                                  'cls': name, 'kwargs': kw,
+                                  'what': '%s(%s) was accepted and its schedule violates the property: %s' % (name, kw, bad)})
+    res.distribution['out_of_domain_constructions'] = len(tries)
+    res.distribution['out_of_domain_refused'] = refused
+
+
 def run(ctx):
     res = core.Result()
     rng = random.Random(1000003 * ctx['seed'] + 17)
@@ -390,6 +429,7 @@ def run(ctx):
                 'one case per (schedule, parameters, attempt, value); pipeline: random (credit, flag, attempt incl. None/0/negative, '
                 'base grades, single/list) cases, distinct by that tuple; full grader calls distinct by (schedule, flag, attempt, input)')
     run_schedules(ctx, res)
+    out_of_domain_schedules(ctx, res)
     run_pipeline(ctx, res, rng)
     full_calls(ctx, res, rng)
     return res
@@ -405,6 +445,10 @@ def replay(w):
         bad = vals[0] != 1 or any(not (0 <= v <= 1) for v in vals) or any(b > a for a, b in zip(vals, vals[1:])) \
             or (kind == 'lin' and min(vals) < round(params[2], 4))
         return bad, 'schedule %s%r on attempts 1..%d: %r' % (kind, params, w['attempt'], vals[-6:])
+    if w.get('kind') == 'accepted-out-of-domain':
+        out_of_domain_schedules(ctx, res)
+        hit = [x for x in res.witnesses if x['key'] == w.get('key')]
+        return bool(hit), 'out-of-domain construction %s(%s): %s' % (w.get('cls'), w.get('kwargs'), hit[0]['what'] if hit else 'refused or harmless on the current tree')
     # pipeline / call witnesses: re-run the generators with escalation and look for the same key
     rng = random.Random(17)
     run_pipeline(ctx, res, rng)
